@@ -79,6 +79,19 @@ def nowraps(f):
 @nowraps
 def unwrapped(a):
     return a
+
+
+now_closure = outer()             # a name that used to be a traced function and is now bound to a function made by another function
+
+
+import operator
+
+
+class Q:
+    def __init__(self):
+        self._n = 1
+
+    size = property(operator.attrgetter("_n"))      # used to be `def size(self)`; the getter is no longer a Python function
 '''
 
 INT = '{"module": "builtins", "qualname": "int"}'
@@ -143,6 +156,10 @@ def row_for(kind, mod, n=0):
         return (mod, "now_builtin", '{"a": %s}' % t, t, None)
     if kind == "now_bound_builtin":
         return (mod, "now_bound_builtin", '{"a": %s}' % t, None, None)
+    if kind == "now_closure":
+        return (mod, "now_closure", '{"x": %s}' % t, t, None)
+    if kind == "prop_getter_nonfunction":
+        return (mod, "Q.size", "{}", t, None)
     if kind == "dunder_removed":
         # the class no longer defines the method; the name still resolves, through inheritance, to a C-implemented
         # slot wrapper of `object` - which is not a Python function
@@ -152,12 +169,12 @@ def row_for(kind, mod, n=0):
     raise ValueError(kind)
 
 
-DECODABLE = {"valid", "valid2", "valid_method", "renamed_param", "nowraps"}
+DECODABLE = {"valid", "valid2", "valid_method", "renamed_param"}
 KINDS = ["valid", "valid2", "valid_method", "renamed_param", "function_removed", "arg_class_removed", "return_class_removed",
          "yield_class_removed", "class_module_removed", "local_scope", "now_nonfunction", "now_class", "now_settable_property",
          "class_now_nontype", "class_now_nontype_ret", "class_module_removed_ret", "arg_class_removed_2",
          "arg_module_removed_name_prefix", "dunder_removed", "dunder_removed_2", "elem_class_now_nontype", "elem_class_removed",
-         "elem_class_now_nontype_ret"]
+         "elem_class_now_nontype_ret", "nowraps", "now_closure", "prop_getter_nonfunction"]
 
 _W = {}
 
@@ -384,6 +401,14 @@ def gen_cases(tier, seed):
     for ks in (["nowraps"], ["valid", "nowraps"], ["nowraps", "function_removed", "valid2"]):
         cases.append({"kinds": ks, "cmd": "stub", "verbose": False})
     plan.append({"family": "extended alphabet: decorator without functools.wraps", "cases": len(cases) - n0})
+    # names now bound to things that LOOK like functions to the decoder but have no place in a stub
+    n0 = len(cases)
+    for ks in (["now_closure"], ["valid", "now_closure"], ["now_closure", "function_removed", "valid2"],
+               ["prop_getter_nonfunction"], ["valid_method", "prop_getter_nonfunction"], ["prop_getter_nonfunction", "valid", "now_closure"]):
+        for cmd in ("stub", "apply"):
+            cases.append({"kinds": ks, "cmd": cmd, "verbose": cmd == "apply"})
+    plan.append({"family": "a traced name now bound to a closure made by another function / a property whose getter is not a function",
+                 "cases": len(cases) - n0})
     # names that are no longer Python functions but C builtins (they cannot be what was traced)
     n0 = len(cases)
     for ks in (["now_builtin"], ["valid", "now_builtin"], ["now_bound_builtin", "valid2"], ["now_bound_builtin"]):
@@ -424,7 +449,9 @@ def main(pid, tier, seed, replay=None):
         rec = by_tid[v["tid"]]
         for clause in v.get("viol", []):
             run.violation({"clause": clause, "cmd": rec["cmd"], "crashed": rec["crashed"], "has_nowraps": "nowraps" in rec["kinds"],
-                           **({"name_now_bound_to_builtin": True} if {"now_builtin", "now_bound_builtin"} & set(rec["kinds"]) else {})},
+                           **({"name_now_bound_to_builtin": True} if {"now_builtin", "now_bound_builtin"} & set(rec["kinds"]) else {}),
+                           **({"name_now_bound_to": sorted({"now_closure", "prop_getter_nonfunction"} & set(rec["kinds"]))}
+                              if {"now_closure", "prop_getter_nonfunction"} & set(rec["kinds"]) else {})},
                           {k: case_by[v["tid"]][k] for k in case_by[v["tid"]] if k != "tid"})
     extended = None
     if not replay:
